@@ -82,7 +82,10 @@ def read_meta(data):
                      xlines=[int(v) for v in rd.xlines])
         else:
             m.update(n_il=0, n_xl=0, ilines=[], xlines=[])
-        rd.close()
+        try:
+            rd.close()
+        except Exception:
+            pass
     env.clear_loader_caches()
     bs = m['blockshape']
     if m['is_2d']:
@@ -101,10 +104,19 @@ def usable(m):
     return m['n_il'] >= 2 and m['n_xl'] >= 2 and m['n_s'] >= 2 and m['tracecount'] >= 2
 
 
+class Library(list):
+    """List of entries plus the names of the inputs that could not be turned into an entry."""
+    dropped = ()
+
+
 def build(seed, scratch, n_random=0, fixtures=True, max_bytes=600000):
-    """Returns a list of entries {name, data, meta, spec or None}."""
-    lib = []
+    """Returns a Library of entries {name, data, meta, spec or None}.  A fixed spec or a fixture that
+    cannot be converted / opened fault-free makes the library unusable: the reader-side checks would
+    silently lose a whole class of files, so that is a harness error, never a pass."""
+    lib = Library()
+    dropped = []
     specs = fixed_specs()
+    n_fixed = len(specs)
     rng = core.stream(seed, 'lib', 'workload')
     for k in range(n_random):
         s = workloads.gen_spec(rng, len(specs))
@@ -118,12 +130,16 @@ def build(seed, scratch, n_random=0, fixtures=True, max_bytes=600000):
         except Exception:
             data = None
         if data is None or len(data) > max_bytes:
+            if spec['id'] < n_fixed:
+                dropped.append(f"gen{spec['id']}: conversion failed")
             continue
         try:
             m = read_meta(data)
         except core.HarnessError:
             raise
-        except Exception:
+        except Exception as e:
+            if spec['id'] < n_fixed:
+                dropped.append(f"gen{spec['id']}: complete file does not open ({type(e).__name__})")
             continue
         if not usable(m):
             continue
@@ -139,8 +155,13 @@ def build(seed, scratch, n_random=0, fixtures=True, max_bytes=600000):
                 m = read_meta(data)
             except core.HarnessError:
                 raise
-            except Exception:
+            except Exception as e:
+                dropped.append(f'fixture {os.path.basename(p)}: does not open ({type(e).__name__})')
                 continue
             if usable(m):
                 lib.append({'name': 'fixture:' + os.path.basename(p), 'data': data, 'meta': m, 'spec': None})
+    lib.dropped = dropped
+    if dropped:
+        raise core.HarnessError('file library incomplete, the reader-side check cannot vouch for anything: '
+                                + '; '.join(dropped[:6]))
     return lib
